@@ -178,6 +178,9 @@ pub async fn run_program(p: &Value, consistent: bool, variant: usize) -> Value {
                     let n = op["name"].as_str().unwrap();
                     ed.remove_target(&TargetName::new(concrete(n)).unwrap()).map_err(|x| x.to_string())?;
                 }
+                "clear_targets" => {
+                    ed.clear_targets().map_err(|x| x.to_string())?;
+                }
                 "version" => {
                     *versions.entry(editing.clone()).or_insert(1) += 1;
                 }
